@@ -152,7 +152,8 @@ def generate(work, tier, seed):
             p = plan[kind]
             for i, (nsrc, n, faults) in enumerate(p["exh"]):
                 jobs[(kind, i)] = ex.submit(gen, kind, i, {"VERIF_GEN_NSRC": nsrc, "VERIF_GEN_N": n,
-                                                           "VERIF_GEN_FAULTS": faults, "VERIF_GEN_RANDOM": 0})
+                                                           "VERIF_GEN_FAULTS": faults, "VERIF_GEN_RANDOM": 0,
+                                                           "VERIF_GEN_RECOVER": 1 if i == 0 else 0})
             cnt, ln, rs = p["rand"]
             jobs[(kind, 99)] = ex.submit(gen, kind, 99, {"VERIF_GEN_NSRC": 1, "VERIF_GEN_N": 0,
                                                          "VERIF_GEN_RANDOM": cnt, "VERIF_GEN_RANDLEN": ln,
